@@ -46,7 +46,8 @@ EXACT_EVERYWHERE = {"DC-additive", "DC-multiplicative"}           # out == obs i
 EXACT_WINDOW_FREE_MEAN = {"LS-additive", "LS-multiplicative", "QM-parametric", "ECDFM", "QDM-absolute", "ISIMIP-window"}
 PARAM_SPREAD = {"QM-parametric", "ECDFM", "ISIMIP-window"}          # observed standard deviation as well (norm: scale = std)
 CONFIGS = ["LS-additive", "LS-multiplicative", "DC-additive", "DC-multiplicative", "QM-parametric", "QM-nonparametric", "ECDFM",
-           "QDM-absolute", "SDM-absolute", "CDFt", "ISIMIP-window", "ISIMIP"]
+           "QDM-absolute", "SDM-absolute", "CDFt", "ISIMIP-window", "ISIMIP", "ISIMIP-trend", "sequence"]
+LARGE_AT = {"quick": (0,), "thorough": (0, 6, 20)}  # which occurrences of CDFt are "large sample" cases (> 10^4 values in one window)
 PR_LIKE = {"LS-multiplicative", "DC-multiplicative"}
 
 
@@ -75,13 +76,30 @@ def make(name, mode, ymode=None):
         if name == "ISIMIP-window":  # one window: `_apply_on_window` is called directly
             # step 6 as the theorem `Props.C01.isimip_add_fit` has it: no trend removal, parametric branch
             return ISIMIP.from_variable("tas", ks_test_for_goodness_of_cdf_fit=False, detrending=False)
-        if name == "ISIMIP":
+        if name in ("ISIMIP", "ISIMIP-trend"):  # the default tas settings (detrending with significance test)
             return ISIMIP.from_variable("tas", **kw) if mode is not None else ISIMIP.from_variable("tas", running_window_mode=False)
     raise ValueError(name)
 
 
 def gen_case(rng, name, tier, k):
+    if name == "ISIMIP-trend":
+        # multi-year series with significant linear trends whose slopes differ between obs and cm_hist
+        S = rng.choice([15, 31])
+        mode = [max(S, rng.choice([31, 61])), S] if rng.random() < 0.6 else None  # None = ISIMIP's month mode
+        ny = rng.randint(12, 16)
+        slope_obs = rng.choice([0.0, 0.05, -0.05])
+        slope_H = slope_obs + rng.choice([-1, 1]) * rng.choice([0.15, 0.2, 0.25])
+        return dict(config=name, mode=mode, ymode=None, nyO=ny, nyH=ny, equal=True, y0=rng.randint(1950, 1990),
+                    np_seed=rng.randint(0, 2**31 - 1), short=False, sigma_bias=rng.choice([-1, 1]) * rng.choice([1.0 / 3, 2.0 / 3]),
+                    sd_ratio=rng.choice([1.0, 1.5]), slope_obs=slope_obs, slope_H=slope_H)
+    if name == "sequence":
+        return dict(config=name, mode=None, ymode=None, nyO=rng.randint(1, 6), nyH=rng.randint(1, 6), equal=False, y0=rng.randint(1950, 1990),
+                    np_seed=rng.randint(0, 2**31 - 1), short=False, sigma_bias=rng.choice([-3.0, -1.0, 1.0, 3.0]), sd_ratio=rng.choice([1.0, 1.5]),
+                    kind=rng.choice(["tas", "pr"]))
     windowed = name not in ("ISIMIP-window",) and (name == "ISIMIP" or rng.random() < 0.45)
+    large = name == "CDFt" and k in LARGE_AT.get(tier, (0,))
+    if large:
+        windowed = False
     big = 8 if tier == "quick" else 9
     if windowed:
         S = rng.choice([7, 15, 31, 61])
@@ -96,12 +114,15 @@ def gen_case(rng, name, tier, k):
         mode = None
         nyO, nyH = rng.randint(1, big), rng.randint(1, big)
     equal = name in ("QM-nonparametric", "SDM-absolute", "CDFt") and k % 2 == 0
+    if large:
+        nyO = nyH = rng.randint(29, 32)
+        equal = True
     ymode = None
-    if name in ("QDM-absolute", "CDFt") and rng.random() < 0.5:
+    if name in ("QDM-absolute", "CDFt") and rng.random() < 0.5 and not large:
         ymode = rng.choice([[17, 9], [5, 3], [31, 1], [9, 9]])
     sigma_bias = rng.choice([0.1, 0.3, 1.0, 3.0, 10.0]) * rng.choice([-1, 1])
     rec = dict(config=name, mode=mode, ymode=ymode, nyO=nyO, nyH=nyH, equal=equal, y0=rng.randint(1950, 1990),
-               np_seed=rng.randint(0, 2**31 - 1), short=(not windowed and rng.random() < 0.3), sigma_bias=sigma_bias,
+               np_seed=rng.randint(0, 2**31 - 1), short=(not windowed and not large and rng.random() < 0.3), sigma_bias=sigma_bias,
                sd_ratio=rng.choice([0.5, 1.0, 1.5, 2.0]))
     return rec
 
@@ -116,7 +137,7 @@ def build(rec):
         if rec["equal"]:
             nH = nO
         dO, dH = dO[:nO], dH[:nH]
-    if name in PR_LIKE:
+    if name in PR_LIKE or rec.get("kind") == "pr":
         obs = K.pr_series(nprs, dO, 3.0, floor=0.01)
         # multiplicative bias: factor exp(sigma_bias / 4) in [~0.08, ~12]
         H = K.pr_series(nprs, dH, 3.0 * float(np.exp(rec["sigma_bias"] / 4.0)), floor=0.01)
@@ -124,15 +145,17 @@ def build(rec):
     else:
         sigma = 3.0
         amp = 0.0 if name == "ISIMIP-window" else 8.0
-        obs = K.tas_series(nprs, dO, 283.0, sigma, amp=amp)
-        H = K.tas_series(nprs, dH, 283.0 + rec["sigma_bias"] * sigma, sigma * rec["sd_ratio"], amp=amp)
+        # linear trends (K / year), centred so that they do not change the series' means
+        cen = lambda d: (np.arange(d.size) - (d.size - 1) / 2.0) / 365.25  # noqa: E731
+        obs = K.tas_series(nprs, dO, 283.0, sigma, amp=amp) + rec.get("slope_obs", 0.0) * cen(dO)
+        H = K.tas_series(nprs, dH, 283.0 + rec["sigma_bias"] * sigma, sigma * rec["sd_ratio"], amp=amp) + rec.get("slope_H", 0.0) * cen(dH)
     return dict(obs=obs, H=H, dO=dO, dH=dH, sigma=sigma)
 
 
 def min_window_sample(rec, data):
     """smallest calibration sample a window sees (whole series when window-free; ISIMIP month mode: a month)"""
     nO, nH = data["obs"].size, data["H"].size
-    if rec["config"] == "ISIMIP" and rec["mode"] is None:
+    if rec["config"] in ("ISIMIP", "ISIMIP-trend") and rec["mode"] is None:
         return min(nO, nH) * 28 // 366
     if rec["mode"] is None:
         return min(nO, nH)
@@ -140,7 +163,40 @@ def min_window_sample(rec, data):
     return min(nO, nH) * L // 366
 
 
+def run_sequence(rec):
+    """a method inter-comparison on ONE set of input arrays (window-free): consecutive debiaser calls get the very same
+    obs / cm_hist / cm_future arrays (no copies in between); every call is judged against pristine copies of the inputs"""
+    data = build(rec)
+    obs, H = data["obs"], data["H"]
+    F = H.copy()  # the series to correct = the reference-period simulation; shared by all calls below
+    obs0, H0 = obs.copy(), H.copy()
+    names = ["LS-multiplicative", "DC-multiplicative", "LS-multiplicative"] if rec["kind"] == "pr" else \
+        ["LS-additive", "QM-parametric", "ECDFM", "DC-additive", "LS-additive"]
+    scale = float(max(1.0, np.max(np.abs(obs0)), np.max(np.abs(H0))))
+    tol = 1e-8 * scale
+    bias = float(np.mean(H0) - np.mean(obs0))
+    info = {"n_obs": int(obs.size), "n_hist": int(H.size), "clause": "exact, consecutive calls on the same arrays", "bias": bias}
+    for step, name in enumerate(names, 1):
+        with warnings.catch_warnings(), np.errstate(all="ignore"):
+            warnings.simplefilter("ignore")
+            out = make(name, None).apply_location(obs, H, F)
+        where = f"sequence/{rec['kind']} call {step} of {names} ({name}, window-free, n_obs={obs.size}, n_hist={H.size}, bias {bias:+.4g})"
+        if name.startswith("DC-"):
+            err = float(np.max(np.abs(out - obs0)))
+            if err > tol:
+                return f"{where}: DeltaChange with an unchanged model does not return obs (max deviation {err:.3g})", info
+        else:
+            resid = float(np.mean(out) - np.mean(obs0))
+            info["residual"] = resid
+            if not abs(resid) <= tol:
+                return (f"{where}: residual mean bias {resid:+.4g} > {tol:.3g} when the debiaser is given the arrays an earlier call was "
+                        f"given (a pristine copy gives the observed mean)"), info
+    return None, info
+
+
 def run_case(rec):
+    if rec["config"] == "sequence":
+        return run_sequence(rec)
     data = build(rec)
     obs, H, dO, dH = data["obs"], data["H"], data["dO"], data["dH"]
     name = rec["config"]
@@ -164,7 +220,7 @@ def run_case(rec):
     resid = float(np.mean(out) - np.mean(obs))
     info.update(bias=bias, residual=resid)
     where = f"{name} (windows {mode}, year windows {ymode}, n_obs={obs.size}, n_hist={H.size}, bias {bias:+.4g})"
-    window_free = mode is None and name != "ISIMIP"
+    window_free = mode is None and name not in ("ISIMIP", "ISIMIP-trend")
     # ---- exact clauses
     if name in EXACT_EVERYWHERE:
         info["clause"] = "exact: out == obs"
@@ -177,6 +233,17 @@ def run_case(rec):
         if not np.array_equal(np.sort(out), np.sort(obs)):
             d = float(np.max(np.abs(np.sort(out) - np.sort(obs))))
             return f"{where}: equal sample sizes but the output is not the observed multiset (max deviation of order statistics {d:.3g})", info
+        return None, info
+    if name == "CDFt" and window_free and ymode is None and obs.size == H.size and obs.size >= 2:
+        # Props.C01.cdft_rank_transfer_clamped: every output is the observation of the same rank, clamped to the range of
+        # the shifted model sample H' = H + (mean obs - mean H)
+        info["clause"] = "exact: sorted(out) == clip(sorted(obs), range of shifted cm_hist) to rounding"
+        Hs = H + (np.mean(obs) - np.mean(H))
+        want = np.clip(np.sort(obs), Hs.min(), Hs.max())
+        d = float(np.max(np.abs(np.sort(out) - want)))
+        if d > 1e-6 * scale:
+            return (f"{where}: equal sample sizes but the output is not the clamped rank transfer of the observations "
+                    f"(max deviation of order statistics {d:.3g})"), info
         return None, info
     if name == "SDM-absolute" and window_free and obs.size == H.size:
         info["clause"] = "exact: sorted(out) == sorted(obs) to rounding"
